@@ -188,6 +188,17 @@ def render(template_text, repo, ex):
             text = _apply_flags(text, flags, ex, a['name'])
             for x in above:
                 out.append(indent + x)
+            # derives are re-declared by the template; the one exception is `Copy`, which changes what the
+            # extracted code may do with a value (`.copied()`, moves out of borrows): if the real item derives
+            # Copy and the template does not declare it, keep it (a refactor may have added it)
+            pre = src.text[:s].rstrip().split('\n')
+            derives = ''
+            while pre and re.match(r'\s*(#\[|///|//)', pre[-1]):
+                derives += pre.pop()
+            if re.search(r'derive\([^)]*\bCopy\b', derives) and not any('Copy' in x for x in above) \
+                    and not any('Copy' in l for l in out[-3:]):
+                out.append(indent + '#[derive(Copy)]')
+                ex.drop('derive(Copy) of %s kept from the source' % a['name'])
             out.append(indent + text)
         elif kind == 'semi':
             s, e = src.semi_item(a['kind'], a['name'])
